@@ -69,6 +69,7 @@ FMpCache(r) ==
   IF ~ConfOK(r.in.c) THEN {"BadConfig"}
   ELSE LET c == ConfOf(r.in.c) IN
        OutcomeClauses(c, r.out, r.in.F)
+       \cup F("Terminates", r.out.outcome \in {"ok", "error"})    \* "hang": the pool did not finish within the recorder's time limit
        \* every job of the piece evaluated exactly once when the run succeeds; never twice, never a foreign job
        \* (a single-process run stops at the first failure, so after an error only "at most once" is required)
        \cup F("ComputedOnce", Len(r.out.computed) = c.nj
